@@ -85,7 +85,10 @@ def run(chk):
         else:
             chk.bad('C21-sweep', 'ModuleGraph::remove', 'sweep', 'ModuleGraph::remove has a path that returns without deleting the edges to the removed path '
                     '(edges to unregistered paths survive: later queries and sort() still see them)', FILE, rm[0]['line'])
-    return ('Coupled-state rule over every method of module::graph::ModuleGraph (resolved receivers and field types from typed HIR). '
+    from sa.props.c20 import acyclic_rules
+    acyclic_rules(chk, fx, 'C21-cycle')
+    return ('Coupled-state rule over every method of module::graph::ModuleGraph (resolved receivers and field types from typed HIR); cycle refusal: single edge writer behind a '
+            'transitive reachability test that is not weakened by a conjunct. '
             'Decides only the representation invariant index[path]==position; query answers, cycle refusal and topological order are not decided.'), {}
 
 
